@@ -64,7 +64,7 @@ Example contracts_satisfiable :
   (forall c Z Z' s, 1 <= c -> 0 < maxabs s -> Z' <= Z ->
      lifeM R t_closed t_run t_struct t_evalM t_wM t_accM t_gamma t_cfac Z' (scale c s)
      <= lifeM R t_closed t_run t_struct t_evalM t_wM t_accM t_gamma t_cfac Z s) /\
-  (forall p s', refines (pseq p) s' ->
+  (forall p s', 0 < maxabs (pseq p) -> refines (pseq p) s' ->
      single R t_closed t_run t_struct t_evalM t_wM t_accM t_resJ t_kown t_gamma t_cfac (s', snd p)
      = single R t_closed t_run t_struct t_evalM t_wM t_accM t_resJ t_kown t_gamma t_cfac p) /\
   (forall M2 Z lf25 L, 0 <= Z ->
@@ -76,7 +76,7 @@ Proof.
   split; [|split].
   - exact (lifetime_antitone_in_scale R t_scaleLC t_closed t_run t_struct t_evalM t_wM t_accM t_gamma t_cfac
              t_struct_scale t_closed_scale t_run_scale t_eval_scale t_w_P t_w_Z t_acc_antitone t_gamma_ok t_cfac_pos).
-  - exact (refine_insensitive R t_closed t_run t_struct t_evalM t_wM t_accM t_resJ t_kown t_gamma t_cfac t_struct_refines).
+  - exact (refine_insensitive R t_closed t_run t_struct t_evalM t_wM t_accM t_resJ t_kown t_gamma t_cfac t_struct_refines t_gamma_ok t_cfac_pos).
   - exact (N10_le_N50_le_N90 R t_closed t_run t_struct t_evalM t_wM t_accM t_w_Z t_acc_antitone t_beta t_beta_antitone).
 Qed.
 
